@@ -139,7 +139,10 @@ def deep_expand(fl, expr, node, depth=3):
                     continue
                 s = n.stmt
                 if isinstance(s, ast.Assign):
+                    flat = []
                     for t in s.targets:
+                        flat += list(t.elts) if isinstance(t, (ast.Tuple, ast.List)) else [t]
+                    for t in flat:
                         if isinstance(t, ast.Subscript) and isinstance(t.value, ast.Name) and t.value.id == nm and d in fl.defs_at(n, nm):
                             out += deep_expand(fl, s.value, n, depth - 1)
                             out.append(fl.expand(t.slice, n))
